@@ -21,17 +21,17 @@ inductive MStmt
   | setFlags        -- `self._is_root = is_root; self._is_sr = is_sr`
   | flags           -- `if is_root and not is_sr: raise ValueError`
   | lutInit         -- `self._lut = defaultdict(list)`
-  | normArgs        -- `if isinstance(idx, slice): val = list(val); items = val  else: items = [val]`
+  | normArgs        -- the argument is made a list: `items = list(items)` / `if isinstance(idx, slice): val = list(val); items = val  else: items = [val]`
   | checkEach (c : CheckId)   -- the checks of every offered item (first failure raises)
   | bindOld         -- `<old> = self[idx]` for a slice, `[self[idx]]` for an index (IndexError / ValueError)
   | lutAppendArgs   -- for every offered item x, in order: `self._lut[x.name].append(x)`
-  | lutRemoveOld    -- for every old item x, in order: `index = self._lut[x.name].index(x); del self._lut[x.name][index]`
+  | lutRemoveOld    -- for every old item x, in order: `index = [m is x for m in self._lut[x.name]].index(True); del self._lut[x.name][index]` (the entry of the object itself)
   | listInit        -- `super().__init__(items)` / `super().__init__()`
   | listAppend      -- `super().append(val)`
   | listInsert      -- `super().insert(position, val)`
   | listAssign      -- `super().__setitem__(idx, val)`
   | listDelete      -- `super().__delitem__(idx)`
-  | forEachArg (m : MethodId)   -- `for item in val: self.<m>(item)`
+  | forEachArg (m : MethodId)   -- `for item in list(val): self.<m>(item)` (over a COPY of the argument)
   | call (m : MethodId)         -- `self.<m>(val)`
   deriving DecidableEq, Repr
 
